@@ -5,7 +5,7 @@ import z3
 
 from symx.core import Explorer, SInt, sym_int, cur
 from symx.sbytes import SBytes
-from vf.common import Harness, shimmed, real, explore
+from vf.common import Harness, shimmed, real, explore, reset_mutable_class_state
 from .validators import CrcStub, crc16_reference, _z
 
 PROP = "C03"
@@ -18,8 +18,19 @@ def build(P, M, kind, a, via_protocol):
     """Build the command exactly as the library does (M = goodwe package modules for the ES literal commands)."""
     if kind.startswith("rtu") or kind.startswith("tcp"):
         if via_protocol:
-            proto = (P.UdpInverterProtocol if kind.startswith("rtu") else P.TcpInverterProtocol)(
-                "127.0.0.1", 8899 if kind.startswith("rtu") else 502, a["comm"], 1, 0)
+            cls_ = P.UdpInverterProtocol if kind.startswith("rtu") else P.TcpInverterProtocol
+            port = 8899 if kind.startswith("rtu") else 502
+            if a.get("comm2") is not None:
+                # history: another protocol object of the same process (other comm address) built the same kind of
+                # command for the same arguments just before
+                other = cls_("127.0.0.2", port, a["comm2"], 1, 0)
+                if kind.endswith("read"):
+                    other.read_command(a["reg"], a["count"])
+                elif kind.endswith("write"):
+                    other.write_command(a["reg"], a["value"])
+                else:
+                    other.write_multi_command(a["reg"], a["payload"])
+            proto = cls_("127.0.0.1", port, a["comm"], 1, 0)
             if kind.endswith("read"):
                 return proto.read_command(a["reg"], a["count"])
             if kind.endswith("write"):
@@ -82,6 +93,8 @@ class RequestHarness(Harness):
         k = self.kind
         if k[:3] in ("rtu", "tcp"):
             a["comm"] = sym_int("comm", 0, 255)
+            if self.via:
+                a["comm2"] = sym_int("comm2", 0, 255)
         if k.startswith("es_"):
             if k == "es_export_limit":
                 a["uvalue"] = sym_int("uvalue", 0, 0xFFFF)
@@ -145,6 +158,7 @@ class RequestHarness(Harness):
         G = shimmed()
         stub = CrcStub()
         G.modbus._modbus_checksum = stub
+        reset_mutable_class_state(G)
         a = self._sym_args()
         k = self.kind
         s = None
@@ -201,7 +215,8 @@ class RequestHarness(Harness):
     def concrete(self, inputs):
         R = real()
         k = self.kind
-        a = {n: inputs[n] for n in ("comm", "reg", "count", "value", "uvalue", "pct", "mode", "h1", "m1", "h2", "m2")
+        reset_mutable_class_state(R)
+        a = {n: inputs[n] for n in ("comm", "comm2", "reg", "count", "value", "uvalue", "pct", "mode", "h1", "m1", "h2", "m2")
              if n in inputs}
         if k.endswith("multi"):
             a["payload"] = bytes(inputs.get(f"payload[{i}]", 0) for i in range(self.m))
@@ -313,16 +328,45 @@ def tasks(tier, seed):
             else:
                 inst.append((k, 0, via))
     n = 16 if tier == "quick" else 32
-    return [{"name": f"requests-{i}", "instances": inst[i::n]} for i in range(n) if inst[i::n]]
+    ts = [{"name": f"requests-{i}", "instances": inst[i::n]} for i in range(n) if inst[i::n]]
+    # wire view: what the scripted peer receives for one request under faults (retransmissions, reconnects)
+    from .c04 import CONFIGS_QUICK, CONFIGS_C04_EXTRA
+    from . import transport as TR
+    cfgs = [c for c in CONFIGS_QUICK if c["retries"] >= 1] + CONFIGS_C04_EXTRA
+    if tier == "thorough":
+        cfgs += [{"transport": t, "keep_alive": ka, "T": 2, "retries": 2} for t in ("udp", "tcp") for ka in (False, True)]
+        cfgs += [{"transport": "tcp", "keep_alive": ka, "T": 2, "retries": 2, "tx_start": 0xFFFD} for ka in (False, True)]
+    for i, c in enumerate(cfgs):
+        for k0 in WIRE_KINDS:
+            ts.append({"name": f"wire-{i}-{k0}", "fn": "wire", "scen": c, "first": k0})
+        if c["transport"] == "tcp":
+            for conn0 in range(len(TR.CONNECT)):
+                ts.append({"name": f"wire-{i}-connect{conn0}", "fn": "wire", "scen": c, "first": None, "conn0": conn0})
+    return ts
+
+
+WIRE_KINDS = ["drop", "answer", "short_garbage", "exception", "lone_fragment", "peer_closes", "send_error"]
+
+
+def _wire(scen, first, conn0=None):
+    from .c04 import PinnedFirst, PinnedConnect
+    h = PinnedFirst(scen, WIRE_KINDS, first) if first is not None else PinnedConnect(scen, ["drop", "answer", "peer_closes"], conn0)
+    h.prop, h.name = PROP, "wire-request"
+    return h
 
 
 def run_task(task):
+    if task.get("fn") == "wire":
+        return {"harnesses": [explore(_wire(task["scen"], task["first"], task.get("conn0")), max_paths=20000, max_seconds=900,
+                                      witnesses_per_outcome=1)]}
     return {"harnesses": [explore(RequestHarness(k, m, via), max_paths=5000, max_seconds=600)
                           for k, m, via in task["instances"]]}
 
 
 def replay(case):
     p = case["params"]
+    if case["harness"] == "wire-request":
+        return _wire(p["scenario"], p.get("first"), p.get("conn0")).concrete(case["inputs"])
     return RequestHarness(p["kind"], p["m"], p["via_protocol"]).concrete(case["inputs"])
 
 
@@ -334,7 +378,11 @@ def evidence_meta(tier):
         "bounds": {"comm": "0..255", "register": "0..65535", "count": "1..125", "value": "-32768..32767",
                    "write_multi_payload_bytes": "2,4,8,12,246 (quick) / every even length 2..246 (thorough)",
                    "aa55_multi": "8-byte groups", "tx_state": "any value of the invariant 0..0xFFFE (inductive step, "
-                   "covers histories of any length incl. the wrap)"},
+                   "covers histories of any length incl. the wrap)",
+                   "history": "via the protocol object: another protocol object (any comm address) built the same command before",
+                   "wire": "one read request (ET register read; ES runtime command for AA55) against the scripted peer of C04: "
+                "udp/tcp x keep-alive, retries 1 (2 in thorough), first kind pinned, connect faults on TCP, transaction "
+                "counter starting at 0, 0xFFFE (and 0xFFFD thorough); every transmitted frame decoded independently"},
         "outside": ["AA55 multi-register writes of other than 8 bytes (class hard-codes the length byte; only caller "
                     "uses 8)", "ES setter arguments outside 0..65535 / 0..255"],
         "assumptions": ["_modbus_checksum stubbed by an uninterpreted function; K-CRC (see C01) closes the gap",
